@@ -407,6 +407,9 @@ def run(ck):
     if ck.shard == 1 % ck.nshards:
         from .c06_purity import purity_monitor
         purity_monitor(ck, g)
+        from .. import attach
+        attach.run_repository_tests(ck, ["purity", "patchleak"])   # the repository's own tests under the purity / patch-leak monitors
+        ck.require("suite/ran_under_monitors")
     if ck.shard >= 2 % ck.nshards or ck.nshards < 3:
         from .c06_faults import fault_monitor
         fault_monitor(ck, thorough)
